@@ -414,6 +414,8 @@ def container_ops(k, rx):
     A.append(["ins", k, "text", ["stp"], 0, False])
     A.append(["ins", k, "obj", ["st"], 5, False])
     A += [["del", k, 0], ["del", k, -1], ["del", k, 4], ["delobj", k, 0], ["delobj", k, 3]]
+    A += [["text", k, ["cm", "im", "st"]], ["text", k, ["st", "un", "md", "pg", "mg"]], ["text", k, ["mg"]], ["text", k, []],
+          ["text", k, ["var", "st"]]]
     return A
 
 
@@ -440,9 +442,11 @@ def random_op(rng, rx):
     r2 = rng.random()
     if r2 < 0.6:
         return rng.choice(container_ops(k, rx))
-    # container cssText: @page blocks only with margin rules (modelled alphabet); @media blocks in raising mode
-    # without the at-rules the @media parser refuses (open finding C07-media-csstext-partial)
-    pool = ["st", "cm", "un", "md", "pg", "mg"] + ([] if rx else ["im", "var", "np1", "ff", "cs1"])
+    # container cssText; an @page block with anything but margin rules is outside the modelled alphabet (the model
+    # answers Unmodelled and the rest of that history is compared by the oracle only)
+    pool = ["st", "cm", "un", "md", "pg", "mg", "mg", "im", "var", "np1", "ff", "cs1"]
+    if rng.random() < 0.3:
+        return ["text", k, ["mg"] * rng.randint(0, 2)]
     return ["text", k, [rng.choice(pool) for _ in range(rng.randint(0, 4))]]
 
 
@@ -557,7 +561,7 @@ def run(ctx):
     # stored witnesses of open findings: re-run, so that KNOWN-FINDING is printed only while they reproduce
     for f in ctx.findings:
         if f.get("status") == "open":
-            for what, wit, sig in replay_witness(f["witness"]):
+            for what, wit, sig in replay_witness(f["witness"])[:1]:      # first failure of the history only
                 ctx.violation(what, wit, sig_text=sig)
 
     def search():
@@ -577,10 +581,11 @@ def run(ctx):
             best = None
             for (rx, ops, _), im in zip(batch, res):
                 for what, wit, sig in oracle(rx, ops, im):
+                    # only the first failure of a history is judged (what follows a failed call is tainted)
                     if not ctx.match_known(what + " :: " + sig):
                         if best is None or len(wit["ops"]) < len(best["ops"]):
                             best = dict(wit, fails=what)
-                        break
+                    break
             if best:
                 return shrink(best)
         return None
@@ -591,7 +596,7 @@ def run(ctx):
         def fails(ops):
             if not ops:
                 return False
-            fs = list(oracle(w["rx"], ops, run_history((w["rx"], ops, True))))
+            fs = list(oracle(w["rx"], ops, run_history((w["rx"], ops, True))))[:1]
             return any(not ctx.match_known(a + " :: " + c) for a, b, c in fs)
         ops = shrink_seq(w["ops"], fails)
         fs = list(oracle(w["rx"], ops, run_history((w["rx"], ops, True))))
